@@ -298,7 +298,7 @@ impl Engine for AccessSim {
     }
     fn runs(&self, tier: Tier) -> u64 {
         match tier {
-            Tier::Quick => 80_000,
+            Tier::Quick => 400_000,
             Tier::Thorough => 10_000_000,
         }
     }
